@@ -18,7 +18,9 @@ Failing(e, st, nd, im) ==
   IN   Clause(\A i \in 1..Len(e.q) : e.q[i].m = LongestStored(st, CleanStems(e.q[i].key)), "longest-prefix")
   \cup Clause(\A i \in 1..Len(e.q) : e.q[i].ml1 = e.q[i].m /\ e.q[i].ml2 = e.q[i].m, "lru-forms-agree")
   \cup Clause(e.len = Cardinality(DOMAIN st) /\ BagOf(e.iter) = BagOf([i \in 1..Len(valseq) |-> st[valseq[i]]]), "len-iter-once")
-  \cup Clause(\A i \in 1..Len(e.q) : e.q[i].img \in DOMAIN im => e.q[i].m = im[e.q[i].img], "same-image-same-key")
+  \* two URLs with the same image under the variant's function are the same key (so storing one and querying the other hits):
+  \* im maps the image of every stored URL to its cleaned key
+  \cup Clause(\A i \in 1..Len(e.q) : e.q[i].img \in DOMAIN im => CleanStems(e.q[i].key) = im[e.q[i].img], "same-image-same-key")
   \cup Clause(\A i \in 1..Len(e.q) : LongestOf(nd, CleanStems(e.q[i].key)) = LongestStored(st, CleanStems(e.q[i].key)), "model-trie")
 TrInit == l = 1 /\ LInit /\ imgs = <<>>
 TrNext ==
@@ -29,7 +31,7 @@ TrNext ==
        ELSE LET k == CleanStems(e.key)
                 nd == SetItemOn(nodes, k, e.v)
                 st == [x \in (DOMAIN store) \cup {k} |-> IF x = k THEN e.v ELSE store[x]]
-                im == [x \in (DOMAIN imgs) \cup {e.img} |-> IF x = e.img THEN e.v ELSE imgs[x]]
+                im == [x \in (DOMAIN imgs) \cup {e.img} |-> IF x \in DOMAIN imgs THEN imgs[x] ELSE k]
                 bad == IF e.exc # "" THEN {"raises"} ELSE Failing(e, st, nd, im)
                 drift == e.base /\ e.key # LruStems(e.u, e.sa)
             IN /\ nodes' = nd /\ nops' = 0 /\ store' = st /\ imgs' = im
